@@ -362,6 +362,9 @@ func (x *extractor) extract(term string, t types.Type, depth int) *MVal {
 			if rs, ok := x.runeString(term); ok {
 				mv.Str = rs
 			}
+			if rs, ok := x.runeRowString(term); ok {
+				mv.Str = rs
+			}
 		case u.Info()&types.IsFloat != 0:
 			f, ok := parseFPVal(v)
 			if !ok {
